@@ -99,6 +99,8 @@ type Explorer struct {
 	havocSeq    int
 	NoPoolHavoc bool
 	NoIfConvert bool
+	Forced      map[string]int // nondetChoice values fixed from the command line (sharding)
+	Progress    bool
 
 	// options
 	SchedChoice    bool // scheduling decisions are explored
@@ -203,6 +205,9 @@ func (e *Explorer) Explore(run func() (panicked bool, pval string)) {
 		e.pending = e.pending[:n]
 		e.resetPath(prefix)
 		e.Paths++
+		if e.Progress && e.Paths%50 == 0 {
+			fmt.Fprintf(os.Stderr, "progress: %d paths, %d pending, %d queries\n", e.Paths, len(e.pending), e.S.Queries())
+		}
 		e.runOne(run)
 		e.Steps += int64(e.steps)
 	}
@@ -300,7 +305,7 @@ func (e *Explorer) sat(extra ...*Term) SatResult {
 	as = append(as, e.pc...)
 	as = append(as, extra...)
 	vars := collectVars(as...)
-	res, m := e.S.Check(as, vars)
+	res, m := e.S.Check(e.pc, extra, vars)
 	if res == Unknown {
 		msg := "unknown"
 		if errs := e.S.Errors(); len(errs) > 0 {
